@@ -89,7 +89,9 @@ SumPool == <<
     S(" ", <<"a", "  extra indented", "8:00 - 9:00">>),
     S(" ", <<"日本語 ä ß Σ">>),
     S(" ", <<"1h">>),                                 \* looks like a value
-    S(" ", <<"- ?">>)
+    S(" ", <<"- ?">>),
+    S(" ", <<"caf" \o SymFF>>),                       \* a Latin-1 byte: invalid UTF-8 (opaque symbol)
+    S(" ", <<"x" \o SymE4 \o SymB8, SymFF \o " y " \o SymNUL>>)   \* truncated multi-byte sequence, NUL
 >>
 
 RecSumPool == <<
@@ -154,6 +156,10 @@ NumOpen(r) == Cardinality({i \in 1..Len(r.entries) : r.entries[i].v.kind = "open
 WellFormed(d) ==
     /\ \A k \in 1..Len(d.recs) : NumOpen(d.recs[k]) <= 1
     /\ \A k \in 1..(Len(d.recs) - 1) : Len(d.seps[k]) >= 1
+RECURSIVE AnyPUA(_)
+AnyPUA(t) == t # "" /\ (Ch(t, 1) \in PUASyms \/ AnyPUA(Drop(t, 1)))
+HasOpaque(d) == \E k \in 1..Len(d.recs) : \E i \in 1..Len(d.recs[k].entries) :
+                   \E j \in 1..Len(d.recs[k].entries[i].s.lines) : AnyPUA(d.recs[k].entries[i].s.lines[j])
 HasLoose(d) == \E k \in 1..Len(d.recs) : \E i \in 1..Len(d.recs[k].entries) : d.recs[k].entries[i].v.loose
 
 (***************************************************************************)
